@@ -135,14 +135,9 @@ def nextUpdate (clock dt : Int) (tl : List Event) : Except Err (KVs × List Even
 
 /-! ## Applying the update, one tick, the `Engine.update` loop -/
 
-/-- total reading of a nested dictionary (nothing below a non-dictionary) -/
-def look : KVs → Path → Option Val
-  | _, [] => Option.none
-  | kvs, [k] => KV.lookup k kvs
-  | kvs, k :: k2 :: rest =>
-    match KV.lookup k kvs with
-    | some (.dict sub) => look sub (k2 :: rest)
-    | _ => Option.none
+/-- reading a nested update dictionary along a path (nothing below a non-dictionary):
+`resolve` of `VivModel/Path.lean` -/
+def look (upd : KVs) (p : Path) : Option Val := resolve (.dict upd) p
 
 /-- the variables the timeline drives: leaf stores (declared by another process), by path -/
 abbrev VarState := List (Path × Val)
